@@ -488,15 +488,16 @@ macro_rules! stub {
 }
 
 async fn wait_until(mut f: impl FnMut() -> bool) {
-	for i in 0..20000u32 {
-		if f() {
-			return;
-		}
+	// the condition becomes true as soon as the client's background task has run: normally within a few polls
+	let deadline = std::time::Instant::now() + Duration::from_secs(60);
+	let mut i = 0u32;
+	while !f() && std::time::Instant::now() < deadline {
 		if i < 200 {
 			tokio::task::yield_now().await;
 		} else {
 			tokio::time::sleep(Duration::from_micros(200)).await;
 		}
+		i = i.saturating_add(1);
 	}
 }
 
